@@ -1103,6 +1103,76 @@ func genAll(seed uint64, thorough bool) []*Sched {
 			}
 		}
 	}
+	// --- family 1c: the dialler's ctx ends the dial while TWO subscribers wait on it (during the upgrade, or during
+	// the protocol init): the waiters have live contexts and must end up subscribed on a fresh connection; and a chain:
+	// the waiter that dialled again is cancelled in turn while a third subscriber waits on ITS dial
+	for idle := 0; idle < 3; idle++ {
+		for phase := 0; phase < 2; phase++ {
+			evs := []Ev{{Op: "sub", A: 0, B: 0}}
+			if phase == 1 {
+				evs = append(evs, Ev{Op: "accept", A: 0})
+			}
+			evs = append(evs, Ev{Op: "sub", A: 1, B: 0}, Ev{Op: "sub", A: 2, B: 0}, Ev{Op: "cancel", A: 0})
+			evs = append(evs, tail(idle, []int{1, 2})...)
+			evs = append(evs[:len(evs)-1], Ev{Op: "cancel", A: 1}, Ev{Op: "next", A: 2, B: 33}, Ev{Op: "cancel", A: 2})
+			if idle == 1 {
+				evs = append(evs, Ev{Op: "tick"})
+			}
+			add(idle, map[int]Key{0: k0, 1: k0, 2: k0}, append(evs, Ev{Op: "stats"}))
+
+			ch := []Ev{{Op: "sub", A: 0, B: 0}, {Op: "accept", A: 0}, {Op: "sub", A: 1, B: 0}, {Op: "cancel", A: 0}}
+			if phase == 1 {
+				ch = append(ch, Ev{Op: "accept", A: 1})
+			}
+			ch = append(ch, Ev{Op: "sub", A: 2, B: 0}, Ev{Op: "cancel", A: 1})
+			ch = append(ch, tail(idle, []int{2})...)
+			add(idle, map[int]Key{0: k0, 1: k0, 2: k0}, ch)
+		}
+	}
+	// --- family 1d: Subscribe with an ALREADY CANCELLED ctx (presub) on a connection shared with live subscriptions, or
+	// behind a pending dial: the caller gets its own ctx error, the socket and the other subscriptions are untouched
+	for idle := 0; idle < 3; idle++ {
+		evs := []Ev{{Op: "sub", A: 0, B: 0}, {Op: "accept", A: 0}, {Op: "ack", A: 0}, {Op: "presub", A: 1}, {Op: "next", A: 0, B: 70},
+			{Op: "sub", A: 2, B: 0}, {Op: "next", A: 2, B: 71}, {Op: "next", A: 0, B: 72}, {Op: "complete", A: 2}, {Op: "next", A: 0, B: 73},
+			{Op: "cancel", A: 0}}
+		if idle == 1 {
+			evs = append(evs, Ev{Op: "tick"})
+		}
+		add(idle, map[int]Key{0: k0, 1: k0, 2: k0}, append(evs, Ev{Op: "stats"}))
+		for phase := 0; phase < 2; phase++ {
+			ev2 := []Ev{{Op: "sub", A: 0, B: 0}}
+			if phase == 1 {
+				ev2 = append(ev2, Ev{Op: "accept", A: 0})
+			}
+			ev2 = append(ev2, Ev{Op: "presub", A: 1}, Ev{Op: "sub", A: 2, B: 0})
+			ev2 = append(ev2, tail(idle, []int{0, 2})...)
+			add(idle, map[int]Key{0: k0, 1: k0, 2: k0}, ev2)
+		}
+	}
+	// --- family 1e: the last subscription leaves (own cancel / upstream complete) and the next subscriber arrives: after
+	// the close (fresh dial), within the idle period (reuse; the timer then finds the table non-empty), after it
+	for idle := 0; idle < 3; idle++ {
+		for _, leave := range []string{"cancel", "complete", "error"} {
+			for late := 0; late < 2; late++ {
+				if late == 1 && idle != 1 {
+					continue
+				}
+				evs := []Ev{{Op: "sub", A: 0, B: 0}, {Op: "flush"}, {Op: "next", A: 0, B: 80}, {Op: leave, A: 0}}
+				if late == 1 {
+					evs = append(evs, Ev{Op: "tick"})
+				}
+				evs = append(evs, Ev{Op: "sub", A: 1, B: 0}, Ev{Op: "flush"}, Ev{Op: "next", A: 1, B: 81})
+				if idle == 1 {
+					evs = append(evs, Ev{Op: "tick"}, Ev{Op: "next", A: 1, B: 82})
+				}
+				evs = append(evs, Ev{Op: "stats"}, Ev{Op: "cancel", A: 1})
+				if idle == 1 {
+					evs = append(evs, Ev{Op: "tick"})
+				}
+				add(idle, map[int]Key{0: k0, 1: k0}, append(evs, Ev{Op: "stats"}))
+			}
+		}
+	}
 	// --- family 2: two subscribers, keys differing in exactly one field: never shared
 	for v := 1; v < len(keyVariants); v++ {
 		kA, kB := keyVariants[0], keyVariants[v]
@@ -1423,12 +1493,18 @@ func stress(kind string, n int, out *common.Out) {
 						} else if strings.Contains(obs, fmt.Sprintf("(ret %d closed)", b)) || strings.Contains(obs, fmt.Sprintf("(ret %d write)", b)) {
 							hits++
 							detail["ret-closed"]++
+						} else if strings.Contains(obs, fmt.Sprintf("(ret %d ", b)) && !strings.Contains(obs, fmt.Sprintf("(ret %d ok)", b)) {
+							hits++
+							detail["ret-other"]++
 						}
 					case "d":
-						// a is a bystander
+						// a is a bystander; b's own failure is its own ctx
 						if strings.Contains(obs, fmt.Sprintf("(cerr %d)", a)) {
 							hits++
 							detail["bystander-cerr"]++
+						} else if strings.Contains(obs, fmt.Sprintf("(ret %d ", b)) && !strings.Contains(obs, fmt.Sprintf("(ret %d ctx)", b)) {
+							hits++
+							detail["cancelled-caller-not-ctx"]++
 						}
 					}
 					mu.Unlock()
